@@ -288,6 +288,12 @@ def r21g(ctx, run):
     c04.r04a(ctx, Proxy(run))
 
 
+def r21h(ctx, run):
+    """the bytes of a constant table are all defined (shared with C04 R04.h: the array arm of expr_to_const_data evaluated on model items)"""
+    import c04
+    c04.r04h(ctx, run)
+
+
 def r21f(ctx, run):
     """the canonicalisation itself: zero_padding evaluated on sample layouts leaves no byte outside the value unwritten-through (shared with C04 R04.g);
     R21.e only decides that it is applied"""
@@ -302,6 +308,7 @@ def rules(ctx):
         Rule("R21.c", "Intern-keyed process-global caches are point-queried only", 6, r21c),
         Rule("R21.e", "bytes captured from JIT memory are canonicalised (padding) before they are embedded", 1, r21e),
         Rule("R21.f", "the canonicalisation zeroes every byte that is not part of the value, for every sample layout (shared with C04 R04.g)", 13, r21f),
+        Rule("R21.h", "constant tables: every byte that goes into the object file is defined (shared with C04 R04.h)", 3, r21h),
         Rule("R21.g", "address-bearing comptime results are rejected or relocated: no JIT address reaches the object file (shared with C04 R04.a)", 15, r21g),
         Rule("R21.d", "every output file is replaced as a whole (no write-open without truncation, no append)", 1, r21d),
     ]
